@@ -5,6 +5,14 @@ V = os.path.dirname(os.path.dirname(os.path.abspath(__file__)))
 RECUR = ['ubuf_free:2', 'ubuf_block_mem_free:2', 'ubuf_block_common_clean:2', 'ubuf_block_mem_dup:2', 'ubuf_block_common_dup:2', 'ubuf_dup:2',
          'ubuf_control:3', 'ubuf_control_va:3', 'ubuf_block_mem_control:3', 'ubuf_block_mem_splice:2', 'ubuf_block_common_splice:2',
          'ubuf_block_common_clean.0:4', 'ubuf_block_common_dup.0:4', 'ubuf_block_common_splice.0:4']
+def recur(n):
+    # recursion through the manager (dup of the next segment inside dup / splice, free of the next segment inside free)
+    # is as deep as the chain is long; loops over the chain likewise (+1 for the exit test)
+    r = ['%s:%d' % (f, n) for f in ('ubuf_free', 'ubuf_block_mem_free', 'ubuf_block_common_clean', 'ubuf_block_mem_dup', 'ubuf_block_common_dup', 'ubuf_dup',
+                                    'ubuf_block_mem_splice', 'ubuf_block_common_splice')]
+    r += ['%s:%d' % (f, n + 1) for f in ('ubuf_control', 'ubuf_control_va', 'ubuf_block_mem_control')]
+    r += ['%s.0:%d' % (f, n + 1) for f in ('ubuf_block_common_clean', 'ubuf_block_common_dup', 'ubuf_block_common_splice')]
+    return r
 groups = [{'name': 'mem_alloc', 'entry': 'h_mem_alloc', 'enforce': None, 'dfcc': False, 'unwind': 7, 'timeout': 300, 'properties': ['C03', 'C02', 'C01'],
            'object_bits': 8}]
 for fn, props in (('single', ['C02']), ('write', ['C02']), ('dup', ['C02', 'C03', 'C01']), ('splice', ['C02', 'C03', 'C01']), ('free', ['C01', 'C09', 'C02'])):
@@ -14,7 +22,7 @@ for fn, props in (('single', ['C02']), ('write', ['C02']), ('dup', ['C02', 'C03'
         if fn in ('single', 'write') and nseg > 2:
             continue
         groups.append({'name': 'mem_%s_s%d' % (fn, nseg), 'entry': 'h_mem_' + fn, 'enforce': None, 'dfcc': False, 'defines': ['NSEG=%d' % nseg],
-                       'unwind': 7, 'unwindset': RECUR, 'timeout': 900 if tier == 'quick' else 2400, 'tier': tier, 'properties': props, 'cost': 3 * nseg,
+                       'unwind': 7, 'unwindset': recur(nseg), 'timeout': 900 if tier == 'quick' else 2400, 'tier': tier, 'properties': props, 'cost': 3 * nseg,
                        'bounded': 'block of %d segment(s)' % nseg, 'object_bits': 8})
 u = {
  'unit': 'block_mem', 'properties': ['C02'], 'source': 'contract.c',
